@@ -125,26 +125,47 @@ def cmd_run(a):
             known_hits.setdefault(kf["fingerprint"], [kf, 0])[1] += 1
             continue
         reported.setdefault(fp, [])
-        if scn is not None and len(reported[fp]) < 1:
+        if scn is not None and len(reported[fp]) < 4:
             reported[fp].append((k, scn, v))
     for fp, (kf, n) in known_hits.items():
         print(f"KNOWN-FINDING: property={a.prop} {kf['what']} (fingerprint {fp}, {n} runs)", flush=True)
     replays = []
     for fp, lst in list(reported.items())[:3]:   # one replay file per distinct clause, at most three
-        for k, scn, v in lst:
-            small, steps = engine.minimise(mod, ns, scn, fp, budget_s=20)
+        unreproduced = []
+        for j, (k, scn, v) in enumerate(lst):
+            small, steps = engine.minimise(mod, ns, scn, fp, budget_s=20 if j == 0 else 8)
             res = mod.execute(ns, small)
             v2 = res.violations[0] if res.violations else v
             path = engine.write_replay(a.prop, batch_seed, k, small, v2, res.digest(),
                                        {"minimise_steps": steps, "original_ops": len(scn.get("ops", [])) or None})
             rp = engine.replay_in_fresh_process(path, ns.repo_root)
             if rp.get("fingerprint") != v2["fingerprint"] or rp.get("digest") != res.digest():
+                if rp.get("digest") == res.digest() and rp.get("fingerprint") is None:
+                    # the replay executed the very same event log, only the violation did not recur: what the tree
+                    # returned depended on process state outside the scenario (e.g. memory addresses recycled by
+                    # the allocator).  Try the next violating run of this batch before giving up.
+                    unreproduced.append((path, v2))
+                    continue
                 print(f"HARNESS-ERROR: replay of {path} did not reproduce: {rp}", flush=True)
                 return 2
             print(f"VIOLATION property={a.prop} replay={path}", flush=True)
             print(f"  clause={v2['fingerprint']} detail={json.dumps(v2.get('detail'), default=str)[:400]}", flush=True)
             replays.append(path)
             exit_code = 1
+            break
+        else:
+            if unreproduced:
+                # observed in the batch (real object vs reference, recorded), identical event log on replay, but the
+                # outcome is not a function of the scenario alone: reported as a violation, marked as state-dependent
+                path, v2 = unreproduced[0]
+                nobs = sum(1 for _k, _s, _v in out["violations"] if _v["fingerprint"] == fp)
+                print(f"VIOLATION property={a.prop} replay={path}", flush=True)
+                print(f"  clause={v2['fingerprint']} observed in {nobs} runs of this batch; a single-scenario replay in a fresh "
+                      f"interpreter executes the same event log without the violation ({len(unreproduced)} scenarios tried): the "
+                      f"tree's result depends on process state outside the scenario (allocation history / object addresses)", flush=True)
+                print(f"  detail={json.dumps(v2.get('detail'), default=str)[:400]}", flush=True)
+                replays.append(path)
+                exit_code = 1
     if reported and not replays:
         print(f"VIOLATION property={a.prop} replay=none (fingerprints {sorted(reported)[:5]})", flush=True)
         exit_code = 1
